@@ -366,6 +366,18 @@ func (sc *serverConn) parseHeader(st *stream) (http.Header, pseudoHeader, error)
 	if err != nil {
 		return nil, pseudoHeader{}, err
 	}
+	for ftype.isUnknown() {
+		// "Frames of unknown types [...] MAY be sent on a request or push
+		// stream before, after, or interleaved with other frames [...]"
+		// https://www.rfc-editor.org/rfc/rfc9114.html#section-4.1-7
+		if err := st.discardFrame(); err != nil {
+			return nil, pseudoHeader{}, err
+		}
+		ftype, err = st.readFrameHeader()
+		if err != nil {
+			return nil, pseudoHeader{}, err
+		}
+	}
 	if ftype != frameTypeHeaders {
 		return nil, pseudoHeader{}, &streamError{errH3MessageError, "received other frames when expecting HEADERS"}
 	}
